@@ -98,6 +98,12 @@ def family(tier):
     add("onidle", L("ab", ["(on-idle 4 tap-vkey v)", "z"], "(defvirtualkeys v x)\n"), "ab", 4)
     # historical_keys ages vs switch_max_key_timing
     add("switch", L("ab", ["(switch ((key-timing 1 lt 4)) x break () y break)", "z"]), "ab", 4, caps={"hist": 1})
+    # ... and a gt-ONLY threshold: the bound that can_block waits for must cover `gt` as well as `lt`
+    add("swgt", L("ab", ["(switch ((key-timing 1 gt 4)) x break () y break)", "z"]), "ab", 6, caps={"hist": 1})
+    # SeqCustomPending / SeqCustomActive: a macro ending in two custom items with a release (mouse buttons) and no
+    # delay in between - the release of the last one is owed after active_sequences is already empty
+    add("btn2", L("ab", ["(macro x mlft mrgt)", "z"]), "ab", 3, constraint="SqB",
+        extra_defs="SqB == Len(K.L.seqs) <= 1 /\\ Len(K.L.states) <= 4")
     # action queue (chords v1 decomposition) + chord waiting
     # (a b) is not a chord of the group: pressing both is decomposed into a, b through the action queue
     add("chord", L("abc", ["(chord g a)", "(chord g b)", "z"], "(defchords g 2 (a) x (b) y)\n"), "abc", 2)
@@ -157,6 +163,9 @@ RICH = [
     ("vkeys", "(defsrc a b c)\n(defvirtualkeys v lsft w x)\n"
               "(deflayer l0 (hold-for-duration 40 w) (on-press toggle-vkey v) (macro-cancel-on-press a 30 b))\n", {},
      ["a", "b", "c"], [30, 40]),
+    ("macro_btn", "(defsrc a b c)\n(deflayer l0 (macro x mlft mrgt) (macro 5 mmid mlft) c)\n", {}, ["a", "b", "c"], [5]),
+    ("switch_gt", "(defsrc a b c)\n(deflayer l0 (switch ((key-timing 1 gt 40)) x break () y break) b "
+                  "(switch ((key-timing 2 gt 25)) 1 break () 2 break))\n", {}, ["a", "b", "c"], [25, 40]),
     ("tapdance", "(defsrc a b)\n(deflayer l0 (tap-dance 50 (x y z)) (tap-dance-eager 40 (1 2)))\n", {}, ["a", "b"], [40, 50]),
     ("chordv1", "(defsrc a b c)\n(defchords g 30 (a) x (b) y (c) z (a b) 1 (a b c) 2)\n"
                 "(deflayer l0 (chord g a) (chord g b) (chord g c))\n", {}, ["a", "b", "c"], [30]),
